@@ -1,0 +1,23 @@
+//! Verification hooks. Compiled only with `--cfg pdf_rs_pdf_verif`; without it this module does
+//! not exist and none of the call sites is compiled.
+//!
+//! Sites whose name ends in `?` are *yield points* (outside every lock: a test scheduler may park
+//! the thread there); all other sites are *log points* (inside the lock that orders the events,
+//! the handler must not block).
+use std::sync::OnceLock;
+
+pub type Hook = fn(site: &'static str, key: u64);
+
+static HOOK: OnceLock<Hook> = OnceLock::new();
+
+/// install the process-wide handler (first call wins)
+pub fn set_hook(h: Hook) -> bool {
+    HOOK.set(h).is_ok()
+}
+
+#[inline]
+pub fn hook(site: &'static str, key: u64) {
+    if let Some(h) = HOOK.get() {
+        h(site, key)
+    }
+}
